@@ -20,6 +20,9 @@ enum Place {
 	SubTrack,
 	/// on a sub-track that was paused before the sound was played
 	PausedSubTrack,
+	/// on a plain sub-track of a spatial track whose listener has been dropped (the spatial track is
+	/// silent, but everything on it is still processed)
+	UnderSpatialTrackWithoutListener,
 }
 
 #[derive(Debug, Clone, Copy, PartialEq)]
@@ -123,8 +126,17 @@ fn run_case(c: &Case) -> Result<Outcome, Failure> {
 fn run_inner(c: &Case) -> Result<Outcome, Failure> {
 	let mut mgr: Option<Mgr> = Some(default_manager(RATE, c.chunk.min(64).max(1)));
 	let m = mgr.as_mut().unwrap();
+	let mut _spatial_parent = None;
 	let mut track: Option<TrackHandle> = match c.place {
 		Place::Main => None,
+		Place::UnderSpatialTrackWithoutListener => {
+			let listener = m.add_listener(glam::Vec3::ZERO, glam::Quat::IDENTITY).map_err(|_| Failure::simple("setup", "listener"))?;
+			let mut sp = m.add_spatial_sub_track(listener.id(), glam::Vec3::new(1.0, 0.0, 0.0), kira::track::SpatialTrackBuilder::new()).map_err(|_| Failure::simple("setup", "spatial track"))?;
+			drop(listener);
+			let child = sp.add_sub_track(TrackBuilder::new().sound_capacity(1)).map_err(|_| Failure::simple("setup", "track"))?;
+			_spatial_parent = Some(sp);
+			Some(child)
+		}
 		_ => Some(m.add_sub_track(TrackBuilder::new().sound_capacity(1)).map_err(|_| Failure::simple("setup", "track"))?),
 	};
 	if c.place == Place::PausedSubTrack {
@@ -444,7 +456,7 @@ fn decode(src: &mut Src, ctx: &mut Ctx) -> Case {
 		4 => End::ManagerDropped(src.index(callbacks)),
 		_ => End::KeepsPlaying,
 	};
-	let mut place = src.pick(&[Place::Main, Place::SubTrack, Place::PausedSubTrack]);
+	let mut place = src.pick(&[Place::Main, Place::SubTrack, Place::PausedSubTrack, Place::UnderSpatialTrackWithoutListener]);
 	if matches!(end, End::TrackDropped(_)) && place == Place::Main {
 		place = Place::SubTrack;
 	}
@@ -499,7 +511,7 @@ impl Property for C10 {
 		"fault_enumeration"
 	}
 	fn rule(&self) -> &'static str {
-		"each case plays one streaming sound over a scripted decoder (index-coded frames, packet sizes 1..1152, seek granularity 1..64) through the real manager with a real decoding thread whose steps are scheduled through hook H2, under a fault plan (k-th decode() or seek() call fails once or forever), a scenario (main track, sub-track, sub-track paused beforehand; the sound itself playing, paused through its handle before its first callback, or waiting for a start time ten seconds away; natural end, stop() before callback j, refused by a full track, track handle dropped, manager dropped, left playing) and a decoder pace (ahead, n steps per callback, stalled after m steps). Oracles: a stop() with an instant tween reaches Stopped within two processed callbacks; the decoder object is released (its Drop is observed) within 4 s of the sound finishing / being stopped / failing / being refused or discarded; the decode loop runs at most 2w+50 times in an idle window of w ms; after a decoder error the sound is Stopped, unloaded one callback later, silent from then on, and pop_error() yields the first error; without faults the audible frames are a strictly increasing subsequence of the source with at most one frame skipped per gap of silence. Enumeration: every stream length 1..24 x packet size 1..4 x every fault position (decode call k, first / later seek, once / forever) on the main track and a sub-track, with the sound playing, paused or waiting for its start time. Non-trivial = a fault after at least one good packet, a discard scenario, or a starving decoder; distinct = distinct decoded choices."
+		"each case plays one streaming sound over a scripted decoder (index-coded frames, packet sizes 1..1152, seek granularity 1..64) through the real manager with a real decoding thread whose steps are scheduled through hook H2, under a fault plan (k-th decode() or seek() call fails once or forever), a scenario (main track, sub-track, sub-track paused beforehand, sub-track of a spatial track whose listener has been dropped; the sound itself playing, paused through its handle before its first callback, or waiting for a start time ten seconds away; natural end, stop() before callback j, refused by a full track, track handle dropped, manager dropped, left playing) and a decoder pace (ahead, n steps per callback, stalled after m steps). Oracles: a stop() with an instant tween reaches Stopped within two processed callbacks; the decoder object is released (its Drop is observed) within 4 s of the sound finishing / being stopped / failing / being refused or discarded; the decode loop runs at most 2w+50 times in an idle window of w ms; after a decoder error the sound is Stopped, unloaded one callback later, silent from then on, and pop_error() yields the first error; without faults the audible frames are a strictly increasing subsequence of the source with at most one frame skipped per gap of silence. Enumeration: every stream length 1..24 x packet size 1..4 x every fault position (decode call k, first / later seek, once / forever) on the main track and a sub-track, with the sound playing, paused or waiting for its start time. Non-trivial = a fault after at least one good packet, a discard scenario, or a starving decoder; distinct = distinct decoded choices."
 	}
 	fn assumptions(&self) -> Vec<String> {
 		vec![
